@@ -47,7 +47,7 @@ class Scale(object):
         return note
 
     def copy(self):
-        other = Scale(self.semitones, self.name)
+        other = Scale(self.semitones, self.name, octave_size=self.octave_size)
         return other
 
     def change(self):
